@@ -51,9 +51,15 @@ def series_event(pp, tid, A, mono, rnd):
         project.maybe_poison(pp, text, tid, every=2)
         # the charge list in an order that depends on the peptide (each charge state is computed on its own)
         zs = [[1, 2, 3, 4], [4, 3, 2, 1], [2, 4, 1, 3], [3, 1, 4, 2]][len(text) % 4]
-        tf = pp.fragment(text, TERMINAL, zs, monoisotopic=mono)
-        im = pp.fragment(text, "i", [2, 1] if len(text) % 2 else [1, 2], monoisotopic=mono)
-        it = pp.fragment(text, INTERNAL, [1], monoisotopic=mono) if n >= 3 else []
+        if len(text) % 3 == 0:
+            # through the Fragmenter class: constructed once for the peptide, asked three times
+            fr_ = pp.Fragmenter(text, monoisotopic=mono)
+            frag = lambda ions, charges: fr_.fragment(ions, charges)
+        else:
+            frag = lambda ions, charges: pp.fragment(text, ions, charges, monoisotopic=mono)
+        tf = frag(TERMINAL, zs)
+        im = frag("i", [2, 1] if len(text) % 2 else [1, 2])
+        it = frag(INTERNAL, [1]) if n >= 3 else []
         return M, tf, im, it
     o, r = call(f)
     ev["out"] = o
